@@ -213,3 +213,17 @@ func (r *Runner) RunSourceVerbose(src string, failAt int) (obs string, detail st
 func Conclusive(obs string) bool {
 	return obs != "BUDGET" && obs != "FUEL" && obs != "UNSPEC" && !strings.HasPrefix(obs, "BADINPUT")
 }
+
+// SameObs: equal observables; two errors with the same trace agree even when their coarse class
+// differs (the class is read off the error text), except for the injected user error of failk.
+func SameObs(impl, model string) bool {
+	if impl == model {
+		return true
+	}
+	if strings.HasPrefix(impl, "E:") && strings.HasPrefix(model, "E:") {
+		ci, ti, _ := strings.Cut(impl, "|")
+		cm, tm, _ := strings.Cut(model, "|")
+		return ti == tm && ci != "E:user" && cm != "E:user"
+	}
+	return false
+}
